@@ -52,7 +52,8 @@ def gen_classes(rng):
                 continue
             pyc[i] = k
             ids[k] = i
-            rows.append(dict(id=i, name="C%d" % i, bases=bases, falsy=rng.random() < 0.25, oddmod=odd))
+            rows.append(dict(id=i, name="C%d" % i, bases=bases, falsy=rng.random() < 0.25, oddmod=odd,
+                             unhashable=rng.random() < 0.15))  # e.g. a plain @dataclass exception: defines __eq__, hence no __hash__
             break
     table = []
     for cid, k in sorted(pyc.items()):
@@ -63,6 +64,7 @@ def gen_classes(rng):
                 row["bases"] = r["bases"]
                 row["falsy"] = r["falsy"]
                 row["oddmod"] = r["oddmod"]
+                row["unhashable"] = r["unhashable"]
         table.append(row)
     return table, pyc
 
